@@ -63,6 +63,7 @@ func rulesC04(c *Ctx) {
 	// ---- loops exit at end of input ----
 	eofexitC04(c, tt)
 	bareProgressC04(c)
+	reprintC04(c)
 	// ---- statement parsers return a node or an error ----
 	errshapeC04(c)
 }
@@ -727,4 +728,59 @@ func bareProgressC04(c *Ctx) {
 		}
 	}
 	c.Floor("C04.progress", n, 3)
+}
+
+// reprintC04: a printer renders each child once.
+func reprintC04(c *Ctx) {
+	p := c.P
+	c.Rule("C04.reprint", "no String method of an AST node renders the same child twice on one path (two String() calls on the same field of the receiver, one dominating the other): for a node that can nest in itself — a parenthesised group — the cost doubles with every level, and a few dozen nested parentheses no longer finish printing (parseFill prints its argument while parsing)")
+	n, bad := 0, 0
+	for _, t := range p.Implementers("Node") {
+		tn := strings.TrimPrefix(p.TypeStr(t), "*")
+		f := p.SSAFunc(p.Method(tn, "String"))
+		if f == nil || len(f.Params) == 0 {
+			continue
+		}
+		type site struct {
+			call *ssa.Call
+			fld  string
+		}
+		var sites []site
+		for _, b := range f.Blocks {
+			for _, in := range b.Instrs {
+				call, ok := in.(*ssa.Call)
+				if !ok {
+					continue
+				}
+				var recv ssa.Value
+				name := ""
+				if call.Call.IsInvoke() {
+					name, recv = call.Call.Method.Name(), call.Call.Value
+				} else if cal := call.Call.StaticCallee(); cal != nil && cal.Signature.Recv() != nil && len(call.Call.Args) > 0 {
+					name, recv = cal.Name(), call.Call.Args[0]
+				}
+				if name != "String" || recv == nil {
+					continue
+				}
+				if base, fld, ok := fieldRef(recv); ok && base == f.Params[0].Name() {
+					sites = append(sites, site{call, fld})
+				}
+			}
+		}
+		n += len(sites)
+		for i, a := range sites {
+			for j, b := range sites {
+				if i >= j || a.fld != b.fld {
+					continue
+				}
+				ab, bb := a.call.Block(), b.call.Block()
+				if ab == bb || ab.Dominates(bb) || bb.Dominates(ab) {
+					bad++
+					c.Bad("C04.reprint", fmt.Sprintf("%s.String: %s rendered twice", tn, a.fld), b.call.Pos(), "the child is printed twice on one path: the time to print (and, through parseFill, to parse) nested "+tn+" nodes is exponential in the depth")
+				}
+			}
+		}
+	}
+	c.OK("C04.reprint", "child renderings examined", 0, fmt.Sprintf("%d String() calls on receiver fields, %d repeated", n, bad))
+	c.Floor("C04.reprint", n, 40)
 }
